@@ -27,6 +27,10 @@ type urlCase struct {
 	Mode     string `json:"mode"`        // play | record
 	URL      string `json:"url"`         // as used in the failing run (informational, the port differs on replay)
 	Step     string `json:"step,omitempty"`
+	// BackFirst: the server's stream has a back-channel media in front of the others; a client
+	// that does not ask for back channels is not shown it, and every SETUP must still reach the
+	// media it was issued for
+	BackFirst bool `json:"back_first,omitempty"`
 }
 
 // the marker letter 'Q' occurs in every generated user name and password and nowhere else in a
